@@ -565,3 +565,44 @@ def r_wssize(A, ctx, scope, rule="R-WSSIZE"):
                         "current support can be left out of the working set (a warm start with a large support, "
                         "more features than the cap)", loc=loc(f, a))
     ctx.floor(rule, n, scope.get("floor", 4))
+
+
+def r_inf_hyper(A, ctx, scope, rule="R-INFPARAM"):
+    """C14 / C19: hyper-parameters whose documented range includes +inf"""
+    ctx.rule(rule, "gamma = +inf is a documented value of the MCP family (it is the L1 limit): no expression "
+             "of its penalties and prox helpers divides a term that is multiplied by gamma by a term that "
+             "contains gamma - at gamma = inf that is inf / inf = NaN although the two gammas cancel on "
+             "paper (w / gamma, comparisons with alpha * gamma and gamma / (gamma - stepsize)-free forms "
+             "are fine)")
+    targets = []
+    for cls in A.prog.penalties:
+        if "gamma" in A.prog.init_params(cls) and "MCP" in cls.name.upper():
+            targets += [m for m in cls.methods.values() if m.name not in ("__init__", "get_spec", "params_to_dict")]
+    m = A.prog.modules.get("skglm.utils.prox_funcs")
+    if m:
+        targets += [f for f in m.functions.values() if "gamma" in f.params and "MCP" in f.name]
+    n = 0
+
+    def mult_by_gamma(e):
+        """gamma occurs as a factor of a product inside e"""
+        for sub in ast.walk(e):
+            if isinstance(sub, ast.BinOp) and isinstance(sub.op, ast.Mult):
+                for side in (sub.left, sub.right):
+                    txt = ast.unparse(side)
+                    if txt in ("gamma", "self.gamma"):
+                        return True
+        return False
+    for f in targets:
+        n += 1
+        bad = None
+        for node in ast.walk(f.node):
+            if isinstance(node, ast.BinOp) and isinstance(node.op, ast.Div):
+                den = ast.unparse(node.right)
+                if ("gamma" in den) and mult_by_gamma(node.left):
+                    bad = node
+        ctx.ob(rule, f"{f.fq}", bad is None,
+               what=(f"{f.qualname}: `{norm_src(bad)[:80]}` multiplies by gamma and divides by gamma: with the "
+                     "documented value gamma = np.inf this is inf / inf = NaN (score, stopping criterion NaN; "
+                     "the solver uses its whole budget) although MCP with gamma = inf is the L1 penalty") if bad else "",
+               loc=loc(f, bad) if bad else None)
+    ctx.floor(rule, n, scope.get("floor", 6))
